@@ -2,6 +2,7 @@
 E1 (construction / copy alphabet, rebuilt-vs-original differential) + E2/I5 (restore and deepcopy transitions
 between any two operations)."""
 import copy
+import math
 import itertools
 
 from vf import core, e2, lib, pred, spaces
@@ -140,6 +141,23 @@ def eval_copy(kind, mu, sigma, name):
             msgs.append(f"deepcopy of {label} returned the same object")
         if type(c) is not type(r) or not same(c.mu, r.mu) or not same(c.sigma, r.sigma) or c.name != r.name or c.id != r.id:
             msgs.append(f"deepcopy of {label}: ({r.mu!r},{r.sigma!r},{r.name!r},{r.id}) -> ({getattr(c,'mu',None)!r},{getattr(c,'sigma',None)!r},{getattr(c,'name',None)!r},{getattr(c,'id',None)})")
+    # "in a distinct object": two copies taken of the same, unchanged rating are distinct from each other as well, and rating with one
+    # of them leaves the other copy and the original as they were (a copy that is handed out twice is not a copy)
+    try:
+        t1 = copy.deepcopy([[r], [model.rating(3.0, 1.0, "y")]])
+        t2 = copy.deepcopy([[r], [model.rating(3.0, 1.0, "y")]])
+        s1 = copy.deepcopy(r)
+        s2 = copy.deepcopy(r)
+        if t1[0][0] is t2[0][0] or s1 is s2 or s1 is t1[0][0] or s2 is t2[0][0]:
+            msgs.append("two deepcopies of one unchanged rating are the same object")
+        before = (core.bits(r.mu), core.bits(r.sigma), core.bits(t2[0][0].mu), core.bits(t2[0][0].sigma), core.bits(s1.mu), core.bits(s1.sigma))
+        if r.sigma > 0 and math.isfinite(r.mu) and abs(r.mu) < 1e6 and r.sigma < 1e6:
+            model.rate(t1, ranks=[1, 0])
+            after = (core.bits(r.mu), core.bits(r.sigma), core.bits(t2[0][0].mu), core.bits(t2[0][0].sigma), core.bits(s1.mu), core.bits(s1.sigma))
+            if after != before:
+                msgs.append("rating a game with one deepcopy of a rating changed the original or another copy of it")
+    except Exception as e:
+        msgs.append(f"deepcopy twice / rate with a copy raised {type(e).__name__}: {e}")
     # shared references inside one deepcopy stay consistent in value
     c2 = copy.deepcopy(league)
     if not (same(c2["solo"].mu, r.mu) and c2["solo"].id == r.id):
@@ -220,6 +238,10 @@ def run_unit(unit, ctx):
                 acc.nontrivial += 1
                 for msg in eval_copy(kind, mu, sigma, name):
                     acc.violation(PID, f"{kind}:deepcopy", msg, {"what": "copy", "kind": kind, "mu": core.hx(mu), "sigma": core.hx(sigma), "name": name})
+            # the empty string is a name like any other for rating() and deepcopy (only create_rating reads a falsy name as "no name", I6)
+            acc.evals += 1
+            for msg in eval_copy(kind, mu, sigma, ""):
+                acc.violation(PID, f"{kind}:deepcopy", msg, {"what": "copy", "kind": kind, "mu": core.hx(mu), "sigma": core.hx(sigma), "name": ""})
         acc.sample({"what": "construct", "kind": kind, "values": [list(v) for v in VALUES[:4]], "names": NAMES})
     elif what == "ids":
         acc.evals += 10000
